@@ -17,7 +17,7 @@ THEOREMS = ["Names.resolve_direct_import", "Names.resolve_module_alias", "Names.
             # the code that BUILDS the alias maps (PdModel/Imports.lean) against CPython's import machinery (PdModel/PyImp.lean)
             "Imports.resolve_sound_partial", "Imports.resolve_from_definer", "Imports.resolve_via_module_alias",
             "Imports.resolve_sound_unbound_counterexample", "Imports.resolve_order_independent", "Imports.wf_run_clean",
-            "Imports.resolve_sound_bases_counterexample",
+            "Imports.resolve_sound_bases_counterexample", "Imports.resolve_sound_nobases",
             # lemmas of PdProps/C04.lean they rest on (the layers below are PdProps/C04Base.lean and C04Clean.lean)
             "Imports.alias_of_stmt", "Imports.def_registered", "Imports.walk_path"]
 RULE = ("generated acyclic multi-package projects (globally unique definition names, one binding per name per scope; plain, "
@@ -36,12 +36,15 @@ ASSUMPTIONS = ["identity of classes/functions = their unique `ID:` docstring; of
 PARTIAL = {"Imports.resolve_sound": "soundness is a theorem (Imports.resolve_sound_partial: for every WF project, every processing "
                                     "order of pydoctor, every import order of Python, every module/class scope and every dotted name "
                                     "that both sides bind, the same object) under WF = the property's quantifier (acyclic by a "
-                                    "topological index, imports inside the project, qualified names unique, each name bound once per "
-                                    "scope - a star import counted as binding every public name of its target and its __all__ -, root "
-                                    "module names reserved, no definition name containing a space) PLUS two restrictions: no base "
-                                    "classes (inherited attributes: oracle + C05) and no __all__ re-export moves (oracle + C07). The "
-                                    "clean-run side condition is discharged (Imports.wf_run_clean). Outside WF the direct differential "
-                                    "oracle decides.",
+                                    "topological index, imports inside the project, names of modules and definitions globally unique, "
+                                    "each name bound once per scope - a star import counted as binding every public name of its target "
+                                    "and its __all__ -, root module names reserved, no definition name containing a space, base "
+                                    "expressions are names) PLUS (1) the restriction noReexport (no __all__ re-export moves: oracle + C07) "
+                                    "and (2) for names whose class steps stay in the classes' own namespaces (PyImp.pyOwn; base classes "
+                                    "are allowed in the project). For names that go through an INHERITED member the statement is false "
+                                    "on the current tree (Imports.resolve_sound_bases_counterexample, open finding "
+                                    "unsound:inherited-attribute:base-import-skipped); they are judged by the oracle. The clean-run side "
+                                    "condition is discharged (Imports.wf_run_clean). Outside WF the direct differential oracle decides.",
            "Imports.resolve_sound_unbound": "without 'Python binds the name' the implication is false (star import of a package's "
                                             "not-yet-imported submodule: Imports.resolve_sound_unbound_counterexample) - outside the "
                                             "property's quantifier, an observation"}
@@ -207,8 +210,11 @@ def add_pyimp(ctx: Ctx, p_reqs, p_impl, p_pay, toks, info, modnames, src, py, im
             for dotted, v in names.items():
                 if "." in dotted and len(queries) < 600:
                     queries.append("R|%d|%s|%s" % (m, enc(".".join(chain)) if chain else "-", enc(dotted)))
-                    answers.append(py_site(v, info))
+                    # `+`: reached through own attributes only (what the vars()-based walk of pyrun reports): PyImp.pyOwn
+                    own = dotted in (py.get("scopes") or {}).get(scope, {})
+                    answers.append(py_site(v, info) + ("+" if own else "-"))
                     ctx.count("pyimp:query-depth:%d" % dotted.count("."))
+                    ctx.count("pyimp:own" if own else "pyimp:inherited")
         p_reqs.append("pyimp run " + " ".join(toks) + " " + order + " ? " + " ".join(queries))
         p_impl.append("ok err=false | " + " ".join(sorted(lines)) + " | " + " ".join(answers))
         p_pay.append({"units": src, "import_order": import_order})
